@@ -18,6 +18,11 @@ CHECKS = {
   note="Trusted: go/ssa; the over-approximation treats unknown conditions as both-ways and callbacks (onStateChange, sendPacket) as not re-entering the automaton.",
   tech="static analysis: finite-domain disjunctive dataflow (property simulation) over go/ssa extracting the FSM transition relation; dominance/provenance rules for option lists",
   ref="DESIGN.md §2 C11, §1.3 E4"),
+ "C14": dict(
+  text="The FailoverController's transition relation over (failover state, role) is extracted by the same finite-domain disjunctive dataflow for every entry point (health events, timer callbacks, periodic evaluation, operator commands) x pre-configuration, labelled with guard atoms (event type, callback outcome, partner health) and actions (callback invoked and for which role, events emitted, timers armed/stopped and with which configured delay), and checked exhaustively over the relation: role changes only after a successful callback for that role; exactly the promoting paths emit 'completed'; Pending is entered only by partner-down on a standby in Normal with the failover timer armed for FailoverDelay, recovery cancels it and the timer callback re-tests the state; failback only on a path where the health monitor reported the partner healthy; no entry point returns in the in-progress state. Real-time durations and flapping schedules are not decided.",
+  note="Trusted: go/ssa; callbacks and event handlers are assumed not to re-enter the controller; time.AfterFunc fires after the given delay.",
+  tech="static analysis: finite-domain disjunctive dataflow (property simulation) over go/ssa extracting the controller's transition relation",
+  ref="DESIGN.md §2 C14"),
 }
 NA = {}
 def main():
